@@ -153,14 +153,26 @@ def r10_2(ctx, prog, crate):
         ctx.saw(b)
         old, new = b.param_name(2), b.param_name(3)
         subs = [c for c in b.live_calls() if c.callee == "core::num::overflowing_sub"]
-        if ctx.check(len(subs) == 1, "R10.2", ["tally_realloc", "one-overflowing_sub"], "overflowing_sub sites: %d" % len(subs), b.where(0)):
+        wsubs = [c for c in b.live_calls() if c.callee == "core::num::wrapping_sub"]
+        if not subs and len(wsubs) == 1:
+            # new.wrapping_sub(old) as isize / new < old / unsigned_abs(): which operand feeds which tally is decided on the
+            # path summaries of R10.3 (value spec in this spelling); here only the direction of the one subtraction
+            c = wsubs[0]
+            a0 = {s_.label() for s_ in b.prov.op_src(c.args[0])}
+            a1 = {s_.label() for s_ in b.prov.op_src(c.args[1])}
+            ctx.check(a0 == {"param:" + new} and a1 == {"param:" + old}, "R10.2", ["tally_realloc", "diff-direction"],
+                      "size change computed as %s - %s, expected new_size - old_size" % (sorted(a0), sorted(a1)), c.line())
+            ops = _tally_sites(b)
+            ctx.check(len(ops) == 1, "R10.2", ["tally_realloc", "one-tally_op"], "tally_op sites: %d" % len(ops), b.where(0))
+            subs = None
+        if subs is not None and ctx.check(len(subs) == 1, "R10.2", ["tally_realloc", "one-overflowing_sub"], "overflowing_sub sites: %d" % len(subs), b.where(0)):
             c = subs[0]
             a0 = {s.label() for s in b.prov.op_src(c.args[0])}
             a1 = {s.label() for s in b.prov.op_src(c.args[1])}
             ctx.check(a0 == {"param:" + new} and a1 == {"param:" + old}, "R10.2", ["tally_realloc", "diff-direction"],
                       "size change computed as %s - %s, expected new_size - old_size" % (sorted(a0), sorted(a1)), c.line())
-        ops = _tally_sites(b)
-        if ctx.check(len(ops) == 1, "R10.2", ["tally_realloc", "one-tally_op"], "tally_op sites: %d" % len(ops), b.where(0)):
+        ops = _tally_sites(b) if subs is not None else []
+        if subs is not None and ctx.check(len(ops) == 1, "R10.2", ["tally_realloc", "one-tally_op"], "tally_op sites: %d" % len(ops), b.where(0)):
             c = ops[0]
             s1 = b.prov.op_src(c.args[1])
             rc = [s for s in s1 if s.kind == "call" and s.a == "alloc::AllocOp::realloc"]
@@ -182,7 +194,9 @@ def r10_2(ctx, prog, crate):
                           "tallied size is not |new_size - old_size| (wrapping_abs of the difference)", c.line())
         # current_size += diff (field 0, not abs)
     b = prog.body("alloc::AllocOp::realloc", crate)
-    if ctx.anchor("R10.2", "AllocOp::realloc", 1 if b else 0, 1):
+    if b is None:
+        ctx.ok("R10.2", "AllocOp::realloc|absent (variant chosen in place, R10.3)")
+    elif ctx.anchor("R10.2", "AllocOp::realloc", 1 if b else 0, 1):
         ctx.saw(b)
         tab = _bool_to_variant(b)
         ctx.check(tab == {True: "Shrink", False: "Grow"}, "R10.2", ["AllocOp::realloc", "arms"],
@@ -369,6 +383,11 @@ def r10_3(ctx, prog, crate):
         "tally_dealloc": (add(F("current_count"), ("int", -1)), add(F("current_size"), ("arg", 2, ()), -1), False, False, ("Dealloc", ("arg", 2, ()))),
         "tally_realloc": (None, add(F("current_size"), diff), False, True, ("realloc", ("call", "core::num::wrapping_abs", (diff,)))),
     }
+    # the same three quantities in their other exact spelling: new.wrapping_sub(old) reinterpreted as signed is the signed
+    # difference, `new < old` is the borrow bit of new - old, unsigned_abs() is wrapping_abs() reinterpreted as unsigned
+    diff2 = ("call", "core::num::wrapping_sub", (("arg", 3, ()), ("arg", 2, ())))
+    shrink2 = ("cmp", "Lt", ("arg", 3, ()), ("arg", 2, ()))
+    alt = {"tally_realloc": (None, add(F("current_size"), diff2), False, True, ("realloc", ("call", "core::num::unsigned_abs", (diff2,))))}
     for fn, (cc, cs, mxc, mxs, (opname, opsize)) in spec.items():
         b = prog.body("alloc::ThreadAllocInfo::" + fn, crate)
         if not ctx.anchor("R10.3", fn, 1 if b else 0, 1):
@@ -377,6 +396,10 @@ def r10_3(ctx, prog, crate):
         sums = PathEval(b, effects={OP: [("tallies",)]}).run()
         if not ctx.check(sums is not None and len(sums) >= 1, "R10.3", [fn, "summarisable"], "`%s` has a loop or too many paths to summarise" % fn, b.where(0)):
             continue
+        shrink_here = shrink
+        if fn in alt and any(sm_.mem.get(K("current_size")) == alt[fn][1] for sm_ in sums):
+            cc, cs, mxc, mxs, (opname, opsize) = alt[fn]
+            shrink_here = shrink2
         for n, sm in enumerate(sums):
             tag = "path%d" % n if len(sums) > 1 else "path"
             where = b.where(sm.blocks[-1])
@@ -419,7 +442,11 @@ def r10_3(ctx, prog, crate):
             if ok:
                 o = ops[0][0]
                 if opname == "realloc":
-                    ok = o[0] == "site" and o[1] == "alloc::AllocOp::realloc" and o[3] == (shrink,)
+                    ok = o[0] == "site" and o[1] == "alloc::AllocOp::realloc" and o[3] == (shrink_here,)
+                    if not ok and o[0] == "adt" and o[2] in ("Shrink", "Grow"):
+                        # the variant chosen in place: Shrink exactly on the path where new < old
+                        lt = sm.cond(("Lt", ("arg", 3, ()), ("arg", 2, ())))
+                        ok = lt is not None and (o[2] == "Shrink") == lt
                 else:
                     ok = o[0] == "adt" and o[2] == opname
             ctx.check(ok, "R10.3", [fn, "tallies-op-and-size"], "`%s` does not tally (%s, %s) exactly once, by tally_op or in place: %s" % (fn, opname, show(opsize), [(show(o[0]), show(o[1]) if o[1] else None, o[2]) for o in ops]), where)
@@ -444,7 +471,9 @@ def r10_3(ctx, prog, crate):
                 ctx.check(not others, "R10.3", ["tally_op", "writes-count-and-size-once"], "tally_op also writes %s" % others, b.where(0))
     # AllocOp::realloc(is_shrink): Shrink iff the flag
     rb = prog.body("alloc::AllocOp::realloc", crate)
-    if ctx.anchor("R10.3", "AllocOp::realloc", 1 if rb else 0, 1):
+    if rb is None:
+        ctx.ok("R10.3", "AllocOp::realloc|absent (the variant is chosen where it is used; decided by tallies-op-and-size)")
+    elif ctx.anchor("R10.3", "AllocOp::realloc", 1 if rb else 0, 1):
         sums = PathEval(rb).run()
         tab = {}
         for sm in sums or []:
